@@ -42,6 +42,9 @@ Bool	libRepDebug	= false;
 #define libError(lib,tag)		\
 	comsgError(NULL, tag, libToStringStatic(lib))
 
+#define libFatal(lib,tag)		\
+	comsgFatal(NULL, tag, libToStringStatic(lib))
+
 #define LIB_SEEK(lib,pos)		\
 	fseek((lib)->file, (lib)->offset + (pos), SEEK_SET)
 
@@ -771,7 +774,9 @@ libGetHeader(Lib lib)
 	LIB_SEEK(lib, long0);
 	cc = libHdrSize;
 	s = strAlloc(cc);
-	FILE_GET_CHARS(lib->file, s, cc);
+	/* A file that ends inside the header is damaged: do not use it. */
+	if (fread(s, BYTE_BYTES, cc, lib->file) != (size_t) cc)
+		libFatal(lib, ALDOR_E_LibBadSectHdr);
 	buf = bufCapture(s, cc);
 
 	lib->hdr.magic = bufGetHInt(buf);
@@ -795,7 +800,22 @@ libGetHeader(Lib lib)
 			libNameIndex(lib, n) = i;
 	}
 
-	libChkHeader(lib);
+	/* A damaged header is reported and the file is not used. */
+	if (!libChkHeader(lib)) {
+		comsgFini();
+		exitFailure();
+	}
+
+	/* Every section must lie within the file. */
+	if (lib->hdr.numSect > 0) {
+		long	end;
+		i = lib->hdr.numSect - 1;
+		fseek(lib->file, long0, SEEK_END);
+		end = ftell(lib->file);
+		if (end < 0 || lib->offset + libIndexSect(lib,i).offset +
+			       libIndexSect(lib,i).length > (Offset) end)
+			libFatal(lib, ALDOR_E_LibSectOffset);
+	}
 	return lib;
 }
 
@@ -889,7 +909,8 @@ libGetSection(Lib lib, LibSectName name, Bool stat)
 		buf = bufCapture(s, cc);
 	}
 
-	FILE_GET_CHARS(lib->file, s, cc);
+	if (fread(s, BYTE_BYTES, cc, lib->file) != (size_t) cc)
+		libFatal(lib, ALDOR_E_LibSectOffset);
 	bufStart(buf);
 	return buf;
 }
